@@ -1,4 +1,4 @@
-use super::{BoxConstraint, Tree, TreeMut, View, ViewContext, ViewLayout, ViewMutLayout};
+use super::{BoxConstraint, Layout, Tree, TreeMut, View, ViewContext, ViewLayout, ViewMutLayout};
 use crate::{Error, TerminalSurface};
 
 /// Widget that changes depending on constraints that it was given.
@@ -31,7 +31,9 @@ where
         layout: ViewLayout<'_>,
     ) -> Result<(), Error> {
         let view = layout.data::<V>().ok_or(Error::InvalidLayout)?;
-        view.render(ctx, surf, layout.view())?;
+        let surf = layout.apply_to(surf);
+        let child_layout = layout.children().next().ok_or(Error::InvalidLayout)?;
+        view.render(ctx, surf, child_layout)?;
         Ok(())
     }
 
@@ -41,9 +43,14 @@ where
         ct: BoxConstraint,
         mut layout: ViewMutLayout<'_>,
     ) -> Result<(), Error> {
+        // NOTE: generated view is laid out in its own node, otherwise its layout data
+        //       would be overwritten by the data of this view
         let view = (self.build)(ctx, ct);
-        view.layout(ctx, ct, layout.view_mut())?;
-        layout.set_data(view);
+        let mut layout_child = layout.push_default();
+        view.layout(ctx, ct, layout_child.view_mut())?;
+        *layout = Layout::new()
+            .with_size(layout_child.size())
+            .with_data(view);
         Ok(())
     }
 }
